@@ -14,8 +14,15 @@ PROP = {
         "GunYu.Props.C15.expiry_bound_campaign",
         "GunYu.Props.C15.holder_until_deadline",
         "GunYu.Props.C15.takeover_possible",
+        "GunYu.Props.C15.at_most_one_acting",
+        "GunYu.Props.C15.acting_intervals_disjoint",
+        "GunYu.Props.C15.acting_has_lease",
+        "GunYu.Props.C15.at_most_one_acting_with_drift",
+        "GunYu.Props.C15.ticker_returns_by_deadline",
+        "GunYu.Props.C15.ticker_leads_within_hold",
         "GunYu.Props.C15.ticker_failed_renewal_stops_leader",
         "GunYu.Props.C15.ticker_stops_before_lease_deadline",
+        "GunYu.Props.C15.ticker_blocked_renewal_stops_leader",
         "GunYu.Props.C15.election_id_configured",
         "GunYu.Props.C15.distinct_addresses_distinct_ids",
         "GunYu.Props.C15.renew_le_third",
@@ -28,9 +35,15 @@ PROP = {
     # not alarm). Everything else (scripts, Campaign/Renew/Resign/Leader glue, run(), runCluster up to the first
     # campaign, clusterTicker/clusterRenew/clusterCampaign, config fix) is executed and needs no fact.
     "expected_facts": {
-        "lease_skel_runCluster": "37a67fb7f5f41332",
+        "lease_skel_runCluster": "cb26da7fa3825564",
         "lease_runcluster_order": ["sc.clusterCampaign", "sy.RunLeader", "elect.Leader", "sy.RunFollower",
                                    "sc.clusterTicker", "sy.Stop", "syncerWait.WgWait", "elect.Resign"],
+        # loop shape of the ticker (executed under virtual time as well): what the ticker theorems are about
+        "lease_skel_clusterTicker": "b413045d51e23d82",
+        "lease_ticker_retry": "2",
+        "lease_timer_arm": "time.Until(leaseFrom.Add(sc.leaseHold()))",
+        "lease_timer_rearm": "time.Until(sentAt.Add(sc.leaseHold()))",
+        "lease_hold_expr": "time.Duration(int(cc.LeaseTimeout/time.Second))*time.Second - cc.LeaseRenewInterval",
     },
     "harness": [
         {"name": "C15", "pkg": "./pkg/cluster/", "test": "TestVerifC15", "timeout_quick": "10m", "timeout_thorough": "40m"},
@@ -58,16 +71,17 @@ PROP = {
             "election; the double holds the reply of that first EVAL while the harness reads the store and closes the run); contend ops: pairs "
             "of two hosts' server sections (quick: 12x12 sub-matrix, thorough: 30x30) run that way at one instant on the store's clock; "
             "leasettl ops: 12x8 grid of leaseTimeout x leaseRenewInterval (incl. unset), ttl as written to the store by the real run() and the "
-            "renew period vs Lean ttlSeconds/fixCfg; ticker ops: the REAL (*SyncerCmd).clusterTicker (+ real clusterRenew/clusterCampaign) "
-            "under testing/synctest with a scripted Election, ALL answer scripts of length<=4 (quick) / <=6 (thorough) for both roles, each "
-            "leader script of length<=3 also followed by 10 failures, + random scripts/periods 1-200 s: calls with their virtual instants and "
-            "when/how the syncer's wait is closed vs Lean tickerRun (exact periods / same-instant reaction are compared THERE only); shared "
+            "renew period vs Lean ttlSeconds/fixCfg; ticker ops: the REAL (*SyncerCmd).clusterTicker (+ real clusterRenew/clusterCampaign/leaseHold) "
+            "under testing/synctest with a scripted Election whose answers are ok / ErrNotLeader / error / A CALL THAT NEVER RETURNS, ALL "
+            "scripts of length<=4 (quick) / <=5 (thorough) for both roles (R 1.5 s, lease 5 s, campaign sent 200 ms before), each leader "
+            "script of length<=2 also followed by 10 failures, + random scripts, periods 1-200 s, leases >= 3 periods: calls with their "
+            "virtual instants, when/how the syncer's wait is closed and when clusterTicker RETURNS vs Lean tickerRun (exact periods / same-instant reaction are compared THERE only); shared "
             "ops: one client shared by two elections used concurrently while a reply is stalled. "
             "Monitors on the real code (independent of Lean; each demands only what C15 states - inequalities relative to ttl, never the "
             "implementation's particular constants): two-holders, two-hosts-told-leader, success-over-foreign-lease, told-leader-without-answer, "
             "success-without-lease (told leader => the store holds the caller's value at least until its deadline), failed-renew-not-reported, "
-            "foreign-lease-changed, resign-released-foreign-lease, leads-past-its-lease (wait still open more than one ttl after the last "
-            "successful renewal), lease-ends-before-next-renewal (ttl written by run() <= renew period), lease-ttl-not-positive, "
+            "foreign-lease-changed, resign-released-foreign-lease, leads-past-its-lease (clusterTicker has not returned more than one ttl after the SEND of the "
+            "last successful campaign/renewal - also when a call never returns), lease-ends-before-next-renewal (ttl written by run() <= renew period), lease-ttl-not-positive, "
             "renew-exceeds-third-of-lease, cluster-section-not-fixed. Everything else (exact expiry, 3 s/600 s/1 s limits, ticker period, "
             "refusals, resign that keeps the lease, follower win) is counters + model diff. distinct_nontrivial = distinct event lists with >=2 "
             "instances and >=4 events (+ distinct kept lease/renew pairs, + host pairs that both campaigned)",
@@ -97,13 +111,17 @@ PROP = {
         "harnesses); after an error from Campaign/Renew its belief is unchanged until the next answer or until its lease runs out",
         "cmd/syncer.go: run(), runCluster up to its first campaign, clusterTicker/clusterRenew/clusterCampaign are executed for real; the rest "
         "of runCluster is tied by source facts only; a Resign that is skipped or late only delays takeover by <= ttl (takeover_possible)",
-        "'holder' is a ghost notion on the STORE's clock (told leader + within ttl of the last success). What the instance DOES is tied "
-        "separately: the real ticker closes the syncer's wait no later than one ttl after the last successful renewal (monitor "
-        "leads-past-its-lease; model theorem ticker_stops_before_lease_deadline) - with election calls that RETURN. NOT covered: a renewal "
-        "call that never returns keeps the instance leading past its lease: redisElection.Campaign ignores its context (client.Do has no "
-        "deadline; measured every run: stat renew_ignores_ctx_deadline), so clusterRenew's WithTimeout(LeaseRenewInterval) has no effect; "
-        "nor clock drift between instance and store. The property text speaks of being TOLD leader while the lease is unexpired, which this "
-        "does not contradict",
+        "acting interval (RunLeader running): at_most_one_acting / acting_intervals_disjoint hold for EVERY schedule of sends, script "
+        "executions, answers of any lateness or none, abandoned calls, stray executions, stops, crashes and resigns, under ONE schedule "
+        "condition (TAllowed): real time does not pass beyond okSent + hold while an instance leads, hold <= ttl. The code meets it since fix "
+        "8b531f9 (lease timer in clusterTicker beside the election call; model theorem ticker_leads_within_hold for calls of any duration, "
+        "tied by the real clusterTicker under virtual time incl. calls that never return - before the fix the ticker blocked in the call and "
+        "the instance kept leading: counter-witness blockedEvs, corpus d_renew_never_returns). hold = leaseHold (store ttl - renew period, on "
+        "the INSTANCE's clock) + drift D of that clock against the store's over one lease + time S from clusterTicker's return until "
+        "sy.Stop()/WgWait have ended the syncer: assumed D + S <= renew period (>= 1 s) (at_most_one_acting_with_drift); neither D nor S is "
+        "measured. Nothing bounds an election call itself (redisElection ignores its context, client.Do has no deadline: stat "
+        "renew_ignores_ctx_deadline every run): a stuck call leaves its goroutine and the client blocked; Resign after such a stall blocks "
+        "runCluster (the instance no longer leads; liveness only)",
         "one client connection is shared by all elections of an instance and its registry keep-alive; RedisConn.Do holds its mutex over "
         "send+receive and has no read deadline, so replies cannot be mis-attributed (shared ops exercise concurrent use with a stalled "
         "reply). A client that abandons a reply without closing the connection (read deadline added naively) is not covered: the double "
@@ -112,8 +130,6 @@ PROP = {
         "ttl >= 1 s (theorem hypothesis; lease_bounds proves ttl >= 3 for every output of ClusterConfig.fix; cfgfix/leasettl ops tie it)",
     ],
     "partial": [
-        "acting interval: 'at most one instance RUNS RunLeader' is proved only in the split form holder-uniqueness (store clock) + "
-        "ticker model with zero-duration calls (ticker_stops_before_lease_deadline); an election call that blocks is outside both",
         "near-definitional theorems, kept as named corollaries, not counted as content: at_most_one_holder_always (instance of "
         "at_most_one_holder), lost_resign_only_own, holder_until_deadline and the first conjunct of expiry_bound (told is frozen while the "
         "instance does not call), election_id_configured / distinct_addresses_distinct_ids (the 3-line definition electionId read backwards; "
